@@ -123,7 +123,23 @@ def check(ctx):
         import traceback
         rp = V.write_replay(ctx, "engine-crash", {"kind": "correspondence", "theorem_or_correspondence": "lib/eng_encrypt.py", "output": traceback.format_exc()[-4000:]})
         ctx.violations.append({"match": "engine-crash", "replay": rp, "what": "the encrypt engine crashed: %r" % (ex,), "no_input": True})
+    if ctx.tier == "thorough":
+        coqchk(ctx)
     ctx.assumptions += ASSUMPTIONS[ctx.prop]
+
+
+def coqchk(ctx):
+    """thorough tier: re-check the compiled property file and everything it depends on with the stand-alone checker"""
+    mod = "Verif.Properties_%s" % ctx.prop
+    rc, out = V.run(["coqchk", "-silent", "-o", "-R", V.COQ, "Verif", mod], cwd=ctx.work, timeout=1800)
+    ok = rc == 0 and "Axioms: <none>" in out.replace("\n  \n", " ").replace("\n", " ").replace("  ", " ")
+    if rc == 0 and not ok:
+        ok = "* Axioms: <none>" in " ".join(out.split())
+    ctx.obligations.append(("coqchk:" + mod, ok))
+    ctx.trusted.add("coqchk (thorough tier): %s re-checked, axioms: %s" % (mod, "none" if ok else "SEE REPLAY"))
+    if not ok:
+        rp = V.write_replay(ctx, "coqchk", {"kind": "obligation", "theorem_or_correspondence": "coqchk " + mod, "output": out[-4000:]})
+        ctx.violations.append({"match": "coqchk", "replay": rp, "what": "coqchk rejects %s or reports axioms" % mod, "no_input": True})
 
 
 PROPS = {"C09": check, "C10": check, "C16": check}
@@ -196,7 +212,7 @@ def run(ctx, prop=None):
         if kind not in rel:
             others += 1
             continue
-        sig = "%s@%s" % (kind, ("step" if crypto else SHAPES.get(w, str(w))))
+        sig = "%s@%s" % (kind, ({0: "step", 1: "concurrent-rotation", 2: "callback-rotation"}.get(cl, "step") if crypto else SHAPES.get(w, str(w))))
         affected.setdefault(sig, set()).add(cid)
         sz = case_size(cases[cid])
         if sig not in sigs or (sz, cid) < sigs[sig][:2]:
@@ -252,7 +268,17 @@ def replay(ctx, rec, path):
     corpus = os.path.join(cdir, "one.jsonl")
     open(corpus, "w").write(json.dumps(rec["case"]) + "\n")
     extra = ["-crypto"] if crypto else []
-    rc, out = V.run([binp] + extra + ["-replay", path])
+    # bin/check replay builds a Ctx for the property, which clears replays/<Cxx>/ - the very file being replayed included:
+    # work from a copy and put the record back
+    rpath = os.path.join(cdir, "replay.json")
+    json.dump(rec, open(rpath, "w"), indent=1)
+    if not os.path.exists(path):
+        try:
+            os.makedirs(os.path.dirname(path), exist_ok=True)
+            json.dump(rec, open(path, "w"), indent=1)
+        except OSError:
+            pass
+    rc, out = V.run([binp] + extra + ["-replay", rpath])
     print(out)
     rc, out = V.run([binp, "-out", cdir, "-corpus", corpus] + (["-crypto", "-crypto-histories", "0"] if crypto else ["-modes", ""]))
     summ = json.load(open(os.path.join(cdir, "cases_summary.json")))
